@@ -82,8 +82,10 @@ def body_exhaustive(c, ctx):
     sig = dict(mesh=desc['cls'], base=c['base'])
     _ = mt.facets, mt.t2f, mt.boundary_facets()        # a mesh that has been looked at (tables cached) before it is refined
     h0 = _digest(mt)
+    # the marked cells as users collect them: possibly naming a cell more than once (e.g. m.f2t[0, m.boundary_facets()])
+    given = np.concatenate([marked, marked[:1], marked[-1:]]) if len(marked) % 2 == 1 else marked
     with LogCapture() as logs:
-        new = mt.refined(marked)
+        new = mt.refined(given)
     check_refinement(ctx, mt, res, new, logs, sig, uniform_k=None, marked=marked)
     if len(marked) == 0 and new.nelements != mt.nelements:
         ctx.fail('empty_marked_changes_mesh', '', **sig)
@@ -146,7 +148,11 @@ def apply(s, step, ctx):
                 if k not in marked:
                     marked.append(k)
             marked = np.array(marked, dtype=np.int64)
-            new = old.refined(marked)
+            given = marked
+            if len(marked) and step['picks'] and int(step['picks'][0]) % 3 == 0:
+                given = np.concatenate([marked, marked[:1]])          # a cell named twice
+                ctx.cls('marked-with-repeats')
+            new = old.refined(given)
             check_refinement(ctx, old, res_now, new, logs, sig, uniform_k=None, marked=marked)
             ctx.nt(0 < len(marked) < old.nelements)
         elif step['op'] == 'uniform':
